@@ -341,6 +341,21 @@ func specs(c *runner.Ctx) []spec {
 		}
 	}
 	optLists = append(optLists, []string{"a", "b", "ab"}, []string{"1", "2", "3"}, []string{"'a/b'", "中", "1.5"})
+	// options that are other spellings of a number (round 13): an option is a text, a numeric value is a member when
+	// its own rendering is that text - "1e2", "0x10", "+7", "07", "1.0" and '3.0' name no number's rendering, and
+	// 9007199254740992 is not 9007199254740993
+	for _, ol := range [][]string{{"1e2", "0x10", "+7"}, {"07", "1.0", "2.50"}, {"'3.0'", "9007199254740992", "1_000"}, {"100", "16", "7", "3", "1", "2.5"}, {"1E2", "0X10", "0b11", "0o7", ".5", "5."}} {
+		list := strings.Join(ol, "/")
+		opts := lang.Options(list)
+		out = append(out, spec{space: "in (" + list + ") over numbers", rule: "in=(" + list + ")",
+			rec: func(v reflect.Value) (bool, bool) { return lang.In(canon(v), opts), true },
+			gen: func(emit func(reflect.Value)) {
+				for _, x := range []interface{}{int(100), int64(16), uint8(7), int(7), float64(3), float32(3), float64(1), float64(2.5), float32(2.5), int64(9007199254740993), int64(9007199254740992), uint64(9007199254740993), float64(100), int(1000), int8(3), float64(0.5), int(5),
+					"1e2", "0x10", "+7", "07", "1.0", "2.50", "3.0", "100", "16", "7", "3", "1E2", ".5", "5."} {
+					emit(rv(x))
+				}
+			}})
+	}
 	for _, ol := range optLists {
 		list := strings.Join(ol, "/")
 		opts := lang.Options(list)
